@@ -589,4 +589,25 @@ JVal gen_mixed_key_object(sim::Rng& r, const GenOpts& o) {
   return v;
 }
 
+JVal gen_dense_value(sim::Rng& r) {
+  static const int around[] = {14, 16, 30, 32, 62, 64, 66, 126, 128, 130, 254, 256, 510, 512, 1022, 1026, 2046, 2050, 4094, 4100};
+  size_t n = (size_t)(r.chance(1, 3) ? r.range(1, 140) : around[r.below(r.chance(1, 6) ? 20 : 14)] + (int)r.range(-2, 2));
+  if ((long)n < 0) n = 1;
+  unsigned kind = (unsigned)r.below(6);
+  JVal v = (kind == 4) ? JVal::obj() : JVal::arr();
+  for (size_t i = 0; i < n; i++) {
+    switch (kind) {
+      case 0: v.a.push_back(JVal::uint(i % 10)); break;                        // [1,2,3,...
+      case 1: v.a.push_back(JVal::str("")); break;                             // ["","",...
+      case 2: v.a.push_back(r.chance(1, 2) ? JVal::arr() : JVal::obj()); break;  // [[],{},...
+      case 3: v.a.push_back(i % 3 == 0 ? JVal::uint(i % 10) : i % 3 == 1 ? JVal::arr() : JVal::str("")); break;
+      case 4: { std::string k; size_t q = i; do { k += (char)('a' + q % 26); q /= 26; } while (q); v.o.emplace_back(k, JVal::uint(i % 10)); break; }   // {"a":0,"b":1,...
+      default: { JVal in = JVal::arr(); in.a.push_back(JVal::uint(i % 10)); v.a.push_back(in); break; }   // [[0],[1],...
+    }
+  }
+  if (r.chance(1, 4)) { JVal w = JVal::arr(); w.a.push_back(std::move(v)); v = std::move(w); }
+  else if (r.chance(1, 4)) { JVal w = JVal::obj(); w.o.emplace_back("k", std::move(v)); v = std::move(w); }
+  return v;
+}
+
 }  // namespace model
